@@ -114,7 +114,7 @@ def judge_valid(ctx, label, texts):
             noinput = True
         if what:
             nb += 1
-            if nb <= 30:
+            if len(ctx.violations) < 40:
                 ctx.report(what, "jsonev:" + t.hex(), {"text_hex": t.hex(), "text": t.decode("latin1"), "implementation": g, "model": m, "reference": want, "found_in": label},
                            case=t, no_input=noinput)
     ctx.evaluations += len(texts)
@@ -133,7 +133,7 @@ def judge_cross(ctx, label, texts, res):
         got = ",".join("%d:%d:%d" % e for e in evs) + "|" + end
         if got != base[t]:
             nb += 1
-            if nb <= 15:
+            if len(ctx.violations) < 40:
                 ctx.report("schema scanner on plain JSON %r delivers %s, JSON scanner %s" % (t[:70], got[:200], base[t][:200]), "schemaev:" + t.hex(),
                            {"text_hex": t.hex(), "text": t.decode("latin1"), "schema_scanner": o, "json_scanner": base[t], "found_in": label}, case=t)
     arr = [t for t in texts if t.lstrip(b" \t\r\n").startswith(b"[") and not re.search(rb"[\[{]", t.lstrip(b" \t\r\n")[1:]) and not re.search(rb"[0-9][eE]", t)]
@@ -152,7 +152,7 @@ def judge_cross(ctx, label, texts, res):
         got = ",".join("%d:%d:%d" % e for e in evs) + "|" + end
         if got != base[t]:
             nb += 1
-            if nb <= 30:
+            if len(ctx.violations) < 40:
                 ctx.report("enum scanner on the array of scalars %r delivers %s, JSON scanner %s" % (t[:70], got[:200], base[t][:200]), "enumev:" + t.hex(),
                            {"text_hex": t.hex(), "text": t.decode("latin1"), "enum_scanner": o, "json_scanner": base[t], "found_in": label}, case=t)
     ctx.evaluations += len(sch) + len(arr)
